@@ -127,6 +127,45 @@ pub fn check_bytes(bytes: &[u8], acc: &mut Acc) -> CaseResult {
             }
         }
     }
+    // the other two public routes: conversion of the stream into bytes, and the hex-string entry
+    match guard(|| Vec::<u8>::from(stream.clone())) {
+        Err(p) => return fail(format!("Vec<u8>::from(stream) {} ({class})", p.signature()), p.msg),
+        Ok(b) if b != bytes => {
+            return fail(
+                format!("re-encoding differs from the input ({class})"),
+                format!("Vec<u8>::from(stream) = {}", hex::encode(&b)),
+            )
+        }
+        Ok(_) => {}
+    }
+    if bytes.len() <= 2_048 {
+        let text = hex::encode(bytes);
+        match guard(|| InstructionStream::try_from(text.as_str())) {
+            Err(p) => return fail(format!("disassembly of the hex string {} ({class})", p.signature()), p.msg),
+            Ok(Err(e)) => {
+                return fail(
+                    format!("disassembly of the hex string rejected ({class})"),
+                    format!("InstructionStream::try_from(&str) returned Err({:?}) at {}", e.payload, e.location),
+                )
+            }
+            Ok(Ok(s2)) => {
+                if s2.as_bytecode() != bytes {
+                    return fail(
+                        format!("hex-string entry decodes to a different stream ({class})"),
+                        format!("as_bytecode() = {}", hex::encode(s2.as_bytecode())),
+                    );
+                }
+            }
+        }
+        acc.label("hex-entry");
+        // malformed text is an input error, reported as a value: an odd length, or one bad character
+        let bad = if bytes.len() % 2 == 0 { format!("{text}0") } else { format!("{}g{}", &text[..1], &text[2..]) };
+        match guard(|| InstructionStream::try_from(bad.as_str())) {
+            Err(p) => return fail(format!("malformed hex text: {}", p.signature()), p.msg),
+            Ok(Ok(_)) => return fail("malformed hex text is accepted".into(), bad),
+            Ok(Err(_)) => {}
+        }
+    }
     let thread = match stream.new_thread(0) {
         Ok(t) => t,
         Err(e) => return fail("new_thread(0) failed on a non-empty stream".into(), format!("{e:?}")),
